@@ -5,13 +5,14 @@ EXTENDS ReplicationSearch
 CONSTANTS MaxSeq,        \* dense family: every non-empty subset of 1 .. MaxSeq
           Offsets, OffN, \* offset family: every non-empty subset of b+1 .. b+OffN, b \in Offsets (long missing prefix)
           LongOffsets, LongSizes, LongRuns,   \* long family: o+1 .. o+m minus one run o+a .. o+b
+          PauseSizes,    \* pause family: (nearly) complete directories 1 .. m, queries around the pauses
           DevSets,       \* sets of deviations to explore
           FullQueries    \* directories spanning fewer sequence numbers get every query time, longer ones SelectedQueries
 \* values for the cfg files (TLC's cfg syntax has no tuples)
 RunsQuick    == {<<2, 2>>, <<1, 7>>, <<10, 19>>, <<20, 20>>, <<17, 33>>, <<30, 38>>, <<150, 151>>, <<100, 250>>}
 RunsThorough == RunsQuick \cup {<<1, 1>>, <<3, 4>>, <<19, 21>>, <<2, 39>>, <<64, 128>>, <<129, 255>>, <<500, 900>>, <<1000, 1022>>}
 MCDirs   == DenseDirs(MaxSeq) \cup OffsetDirs(Offsets, OffN) \cup LongDirs(LongOffsets, LongSizes, LongRuns)
-MCInit   == Init(MCDirs, DevSets, FullQueries)
-MCSpec   == Spec(MCDirs, DevSets, FullQueries)
-MCFairSpec == FairSpec(MCDirs, DevSets, FullQueries)
+MCInit   == Init(MCDirs, DevSets, FullQueries) \/ PauseInit(PauseSizes, DevSets)
+MCSpec   == MCInit /\ [][Next]_vars
+MCFairSpec == MCSpec /\ WF_vars(Next)
 =============================================================================
